@@ -1,16 +1,239 @@
 package main
 
 import (
+	"encoding/json"
+	"flag"
 	"fmt"
+	"os"
+	"path/filepath"
+	"regexp"
+	"runtime"
+	"sort"
+	"strings"
+	"time"
+
 	"golang.org/x/tools/go/packages"
 	"golang.org/x/tools/go/ssa"
 	"golang.org/x/tools/go/ssa/ssautil"
 )
 
+const repoDir = "/repo"
+const modPath = "github.com/gobwas/ws"
+
+var verifDir = "/verif"
+
+var pkgDirs = map[string]string{"ws": "", "wsutil": "wsutil", "wsflate": "wsflate"}
+
+type Loaded struct {
+	prog      *ssa.Program
+	pkgs      map[string]*ssa.Package
+	overlay   map[string][]byte
+	harnesses map[string][]string // pkg short name → harness function names
+	dropped   []string
+	loadTime  time.Duration
+}
+
+func rtSource(pkg string) []byte {
+	b, err := os.ReadFile(filepath.Join(verifDir, "harness", "rt.go.tmpl"))
+	if err != nil {
+		fatal("read rt template: %v", err)
+	}
+	return []byte(strings.Replace(string(b), "package PKG", "package "+pkg, 1))
+}
+
+func fatal(f string, a ...interface{}) {
+	fmt.Fprintf(os.Stderr, "symgo: "+f+"\n", a...)
+	os.Exit(2)
+}
+
+// buildOverlay maps harness files into the repo packages (virtual files only).
+func buildOverlay(only map[string]bool) (map[string][]byte, map[string][]string) {
+	ov := map[string][]byte{}
+	files := map[string][]string{}
+	for pkg, dir := range pkgDirs {
+		hd := filepath.Join(verifDir, "harness", pkg)
+		ents, _ := os.ReadDir(hd)
+		n := 0
+		for _, e := range ents {
+			if !strings.HasSuffix(e.Name(), ".go") {
+				continue
+			}
+			src, err := os.ReadFile(filepath.Join(hd, e.Name()))
+			if err != nil {
+				fatal("%v", err)
+			}
+			virt := filepath.Join(repoDir, dir, "zz_verif_"+e.Name())
+			if only != nil && !only[virt] {
+				continue
+			}
+			ov[virt] = src
+			files[pkg] = append(files[pkg], virt)
+			n++
+		}
+		if n > 0 {
+			ov[filepath.Join(repoDir, dir, "zz_verif_rt.go")] = rtSource(pkg)
+		}
+	}
+	return ov, files
+}
+
+var harnessRe = regexp.MustCompile(`^C\d\d_`)
+
+func load() *Loaded {
+	st := time.Now()
+	ov, files := buildOverlay(nil)
+	var dropped []string
+	var pkgs []*packages.Package
+	for attempt := 0; attempt < 20; attempt++ {
+		cfg := &packages.Config{Mode: packages.LoadAllSyntax, Dir: repoDir, Overlay: ov, BuildFlags: []string{"-tags=verif"},
+			Env: append(os.Environ(), "GOFLAGS=-mod=mod", "GOPROXY=off", "GOSUMDB=off", "GOTOOLCHAIN=local")}
+		var err error
+		pkgs, err = packages.Load(cfg, ".", "./wsutil", "./wsflate")
+		if err != nil {
+			fatal("load: %v", err)
+		}
+		// drop harness files that do not type-check against the current tree
+		bad := map[string]bool{}
+		other := []string{}
+		for _, p := range pkgs {
+			for _, e := range p.Errors {
+				pos := e.Pos
+				if i := strings.Index(pos, ":"); i > 0 {
+					pos = pos[:i]
+				}
+				if strings.Contains(pos, "zz_verif_") && !strings.HasSuffix(pos, "zz_verif_rt.go") {
+					bad[pos] = true
+				} else {
+					other = append(other, e.Error())
+				}
+			}
+		}
+		if len(bad) == 0 {
+			if len(other) > 0 {
+				fatal("package errors: %s", strings.Join(other, "; "))
+			}
+			break
+		}
+		for f := range bad {
+			fmt.Fprintf(os.Stderr, "symgo: dropping harness file %s (does not type-check against current tree)\n", f)
+			for _, p := range pkgs {
+				for _, e := range p.Errors {
+					if strings.HasPrefix(e.Pos, f) {
+						fmt.Fprintf(os.Stderr, "   %s\n", e.Error())
+					}
+				}
+			}
+			dropped = append(dropped, filepath.Base(f))
+			delete(ov, f)
+		}
+		_ = files
+	}
+	prog, spkgs := ssautil.AllPackages(pkgs, ssa.InstantiateGenerics)
+	prog.Build()
+	l := &Loaded{prog: prog, pkgs: map[string]*ssa.Package{}, overlay: ov, harnesses: map[string][]string{}, dropped: dropped}
+	for _, p := range prog.AllPackages() {
+		l.pkgs[p.Pkg.Path()] = p
+	}
+	for i, p := range spkgs {
+		if p == nil {
+			continue
+		}
+		short := strings.TrimPrefix(strings.TrimPrefix(pkgs[i].PkgPath, modPath), "/")
+		if short == "" {
+			short = "ws"
+		}
+		for name, m := range p.Members {
+			if fn, ok := m.(*ssa.Function); ok && harnessRe.MatchString(name) {
+				_ = fn
+				l.harnesses[short] = append(l.harnesses[short], name)
+			}
+		}
+		sort.Strings(l.harnesses[short])
+	}
+	l.loadTime = time.Since(st)
+	return l
+}
+
+func (l *Loaded) pkgOf(short string) *ssa.Package {
+	if short == "ws" {
+		return l.pkgs[modPath]
+	}
+	return l.pkgs[modPath+"/"+short]
+}
+
+type RunConfig struct {
+	Pattern  *regexp.Regexp
+	Tier     int
+	Workers  int
+	MaxPaths int
+	Timeout  time.Duration
+	Solver   string
+	WitnessN int
+	Verbose  bool
+}
+
+func runEngine(l *Loaded, rc RunConfig) []*Harness {
+	e := &Engine{prog: l.prog, pkgs: l.pkgs, maxPaths: rc.MaxPaths, deadline: time.Now().Add(rc.Timeout),
+		solver: rc.Solver, nworkers: rc.Workers, witnessN: rc.WitnessN, verbose: rc.Verbose}
+	tierVal = rc.Tier
+	for short, names := range l.harnesses {
+		for _, n := range names {
+			if rc.Pattern != nil && !rc.Pattern.MatchString(n) {
+				continue
+			}
+			fn := l.pkgOf(short).Func(n)
+			e.harnesses = append(e.harnesses, &Harness{Name: short + "." + n, Fn: fn, Stats: &HarnessStats{Name: short + "." + n,
+				Asserts: map[string]int{}, AssertsSym: map[string]int{}, ViolCount: map[string]int{}, Funcs: map[string]bool{}, Covers: map[string]int{}}})
+		}
+	}
+	sort.Slice(e.harnesses, func(i, j int) bool { return e.harnesses[i].Name < e.harnesses[j].Name })
+	e.runAll()
+	return e.harnesses
+}
+
+var tierVal int
+
 func main() {
-	cfg := &packages.Config{Mode: packages.LoadAllSyntax, Dir: "/repo"}
-	pkgs, err := packages.Load(cfg, "./...")
-	fmt.Println(len(pkgs), err)
-	prog, _ := ssautil.AllPackages(pkgs, ssa.InstantiateGenerics)
-	_ = prog
+	if len(os.Args) < 2 {
+		fatal("usage: symgo run|check|selftest ...")
+	}
+	if d := os.Getenv("VERIF_DIR"); d != "" {
+		verifDir = d
+	}
+	switch os.Args[1] {
+	case "run":
+		fs := flag.NewFlagSet("run", flag.ExitOnError)
+		pat := fs.String("harness", ".", "regexp of harness names")
+		tier := fs.Int("tier", 0, "0 quick, 1 thorough")
+		workers := fs.Int("workers", runtime.NumCPU(), "workers")
+		maxp := fs.Int("maxpaths", 200000, "max paths per harness")
+		to := fs.Duration("timeout", 10*time.Minute, "deadline")
+		solver := fs.String("solver", "z3", "z3|z3-new|cvc5")
+		verbose := fs.Bool("v", false, "verbose")
+		fs.Parse(os.Args[2:])
+		l := load()
+		fmt.Fprintf(os.Stderr, "loaded in %v; harnesses: %v\n", l.loadTime, l.harnesses)
+		hs := runEngine(l, RunConfig{Pattern: regexp.MustCompile(*pat), Tier: *tier, Workers: *workers, MaxPaths: *maxp, Timeout: *to, Solver: *solver, WitnessN: 4, Verbose: *verbose})
+		for _, h := range hs {
+			s := h.Stats
+			fmt.Printf("%s: paths=%d pruned=%d instrs=%d queries=%d sat=%d unsat=%d solver=%v depth=%d incomplete=%v\n", s.Name, s.Paths, s.Pruned, s.Instrs, s.Queries, s.Sat, s.Unsat, s.SolverTime.Round(time.Millisecond), s.MaxDepth, s.Incomplete)
+			for _, k := range sortedKeys(s.Asserts) {
+				fmt.Printf("   assert %-40s reached on %d paths\n", k, s.Asserts[k])
+			}
+			for _, e := range s.Errors {
+				fmt.Printf("   ERROR %s\n", e)
+			}
+			for _, v := range s.Violations {
+				b, _ := json.Marshal(v.Values)
+				fmt.Printf("   VIOL assert=%s kind=%s site=%s msg=%s choices=%v values=%s\n", v.Assert, v.Kind, shortFn(v.Site), v.Msg, v.Choices, b)
+			}
+			for _, g := range s.GlobalWrite {
+				fmt.Printf("   GLOBAL-WRITE %s\n", g)
+			}
+		}
+	case "check":
+		os.Exit(checkMain(os.Args[2:]))
+	default:
+		fatal("unknown command %s", os.Args[1])
+	}
 }
